@@ -185,3 +185,25 @@ def raises(fn, excname):
                 if t == excname or t.endswith("." + excname):
                     out.append(n)
     return out
+
+
+def propagate(fn, depth=8):
+    """Copy of fn with every load of a once-assigned local (pure right-hand
+    side) replaced by its definition: `status = report[0]; if status == X`
+    reads `if self._response[0] == X`."""
+    defs = _defs(fn)
+    params = {a.arg for a in fn.args.args + fn.args.kwonlyargs}
+    defs = {k: v for k, v in defs.items() if k not in params and _pure(v)}
+    fn = acopy(fn)
+
+    class S(ast.NodeTransformer):
+        def visit_Name(self, n):
+            if isinstance(n.ctx, ast.Load) and n.id in defs:
+                return ast.copy_location(resolve(fn, n, depth, defs), n)
+            return n
+
+        def visit_Lambda(self, n):
+            return n
+    S().visit(fn)
+    ast.fix_missing_locations(fn)
+    return fn
